@@ -129,3 +129,74 @@ Proof.
 Qed.
 
 Print Assumptions import_jackknife_samples_tie.
+
+(* ------------------------------------------------------------------ export_bootstrap from `proj = ...` on, for a given table of random numbers *)
+Lemma incr_at_q_is_model c k : incr_at_q c k = incr_at c k.
+Proof. revert k; induction c as [|x c IH]; intros [|k]; simpl; try reflexivity; try (rewrite IH; reflexivity). Qed.
+Lemma bincount_q_is_model rho L : bincount_q rho L = bincount rho L.
+Proof. induction rho as [|k r IH]; simpl; [reflexivity|]. rewrite IH. apply incr_at_q_is_model. Qed.
+Lemma arr_dot_is_dot a : forall b, arr_dot a b = dot a b.
+Proof. induction a as [|x a IH]; intros [|y b]; simpl; try reflexivity; try (rewrite IH; reflexivity). Qed.
+
+Lemma max_fold_in_range (L : Z) (o : list Z) : (forall x, In x o -> (x < L)%Z) -> fold_right Z.max L (map (fun x => (x + 1)%Z) o) = L.
+Proof.
+  induction o as [|x o IH]; intro H; simpl; [reflexivity|]. rewrite IH by (intros y Hy; apply H; right; exact Hy).
+  assert (x < L)%Z by (apply H; left; reflexivity). lia.
+Qed.
+
+Theorem export_bootstrap_core_tie (table : list (list nat)) (deltas : list Q) (rmean value : Q) :
+  table <> [] -> (forall rho k, In rho table -> In k rho -> (k < List.length deltas)%nat) ->
+  export_bootstrap_core (Z.of_nat (List.length table)) (map (map Z.of_nat) table) deltas rmean value
+  = Ok (export_boot value (map (fun d => d + rmean) deltas) table).
+Proof.
+  intros Hne Hrange. unfold export_bootstrap_core. cbv zeta.
+  set (L := List.length deltas). set (data := arr_add_s deltas rmean).
+  assert (Hdata : List.length data = L) by (unfold data, arr_add_s; apply map_length).
+  (* the rows of counts *)
+  rewrite (py_map_total _ (fun o => bincount (map Z.to_nat o) L)).
+  2:{ intros o Ho. apply in_map_iff in Ho. destruct Ho as [rho [<- Hrho]]. unfold py_bincount.
+      replace (existsb (fun x => (x <? 0)%Z) (map Z.of_nat rho)) with false.
+      - cbn [bind]. rewrite max_fold_in_range.
+        + unfold zlen. rewrite Nat2Z.id. fold L. rewrite bincount_q_is_model. reflexivity.
+        + intros x Hx. apply in_map_iff in Hx. destruct Hx as [k [<- Hk]]. unfold zlen. specialize (Hrange rho k Hrho Hk). lia.
+      - symmetry. apply Bool.not_true_iff_false. intro E. apply existsb_exists in E. destruct E as [x [Hx E]].
+        apply in_map_iff in Hx. destruct Hx as [k [<- _]]. lia. }
+  cbn [bind]. rewrite map_map.
+  set (rows := map (fun rho => bincount (map Z.to_nat (map Z.of_nat rho)) L) table).
+  assert (Hrows : rows = map (fun rho => bincount rho L) table).
+  { unfold rows. apply map_ext. intro rho. f_equal. rewrite map_map. rewrite <- (map_id rho) at 2. apply map_ext. intro k. apply Nat2Z.id. }
+  rewrite Hrows. clear rows Hrows.
+  assert (Hlen : forall rho, List.length (bincount rho L) = L).
+  { intro rho. apply bincount_length. }
+  unfold py_vstack. destruct table as [|rho0 table'] eqn:Et; [congruence|]. cbn [map].
+  replace (forallb (fun x => Nat.eqb (List.length x) (List.length (bincount rho0 L))) (map (fun rho => bincount rho L) table')) with true.
+  2:{ symmetry. apply forallb_forall. intros x Hx. apply in_map_iff in Hx. destruct Hx as [r [<- _]]. rewrite !Hlen. apply Nat.eqb_refl. }
+  cbn [bind].
+  unfold py_zeros. destruct (Z.of_nat (List.length (rho0 :: table')) + 1 <? 0)%Z eqn:Ez; [lia|]. cbn [bind].
+  replace (Z.to_nat (Z.of_nat (List.length (rho0 :: table')) + 1)) with (S (List.length (rho0 :: table'))) by lia.
+  change (zeros (S (List.length (rho0 :: table')))) with (0 :: zeros (List.length (rho0 :: table'))).
+  unfold py_store. rewrite norm_index_ok by (unfold zlen; simpl List.length; lia). cbn [bind Z.to_nat upd].
+  unfold py_matvec, mat_div_s.
+  replace (forallb (fun row => Nat.eqb (List.length row) (List.length data))
+                   (map (map (fun c => c / inject_Z (zlen deltas))) (bincount rho0 L :: map (fun rho => bincount rho L) table'))) with true.
+  2:{ symmetry. apply forallb_forall. intros x Hx. apply in_map_iff in Hx. destruct Hx as [r [<- Hr]]. rewrite map_length, Hdata.
+      destruct Hr as [<-|Hr]; [rewrite Hlen; apply Nat.eqb_refl|]. apply in_map_iff in Hr. destruct Hr as [r' [<- _]]. rewrite Hlen. apply Nat.eqb_refl. }
+  cbn [bind].
+  unfold py_slice_set.
+  assert (Hzl : zlen (value :: zeros (List.length (rho0 :: table'))) = Z.of_nat (S (List.length (rho0 :: table')))).
+  { unfold zlen. simpl List.length. rewrite zeros_length. reflexivity. }
+  rewrite Hzl. unfold clip_index. destruct (1 <? 0)%Z eqn:E1; [lia|].
+  destruct (Z.of_nat (S (List.length (rho0 :: table'))) <? 0)%Z eqn:E2; [lia|].
+  rewrite (Z.min_r _ 1) by lia. rewrite Z.min_id.
+  rewrite !map_length. simpl List.length at 1.
+  replace (Z.to_nat (Z.of_nat (S (S (List.length table'))) - 1)) with (S (List.length table')) by lia.
+  cbn [List.length]. rewrite map_length, Nat.eqb_refl. cbn [bind].
+  change (Z.to_nat 1) with 1%nat. cbn [firstn app].
+  rewrite skipn_all2 by (simpl; rewrite zeros_length; lia). rewrite app_nil_r.
+  unfold export_boot. f_equal. f_equal.
+  change (bincount rho0 L :: map (fun rho => bincount rho L) table') with (map (fun rho => bincount rho L) (rho0 :: table')).
+  rewrite !map_map. apply map_ext. intro rho. unfold boot_row. rewrite arr_dot_is_dot.
+  fold (arr_add_s deltas rmean). fold data. unfold QlenL, zlen. rewrite Hdata. reflexivity.
+Qed.
+
+Print Assumptions export_bootstrap_core_tie.
